@@ -290,6 +290,12 @@ class OpsMixin:
         if op == "IsNot":
             r = self.is_(a, b)
             return (not r) if isinstance(r, bool) else SBool(z3.Not(r.t), True)
+        if op in ("Eq", "NotEq") and (isinstance(a, Stacked) or isinstance(b, Stacked)) and \
+                all(isinstance(x, Stacked) or is_num(x) for x in (a, b)):
+            # array == scalar / array == array: elementwise (an array of flags)
+            n = a.n if isinstance(a, Stacked) else b.n
+            return Stacked(n, lambda i: self.compare(op, a.at(i) if isinstance(a, Stacked) else a,
+                                                     b.at(i) if isinstance(b, Stacked) else b), tag="eq")
         if op == "Eq":
             return self.py_eq(a, b)
         if op == "NotEq":
@@ -664,6 +670,9 @@ class OpsMixin:
             # the opaque value IS that tuple (shape assumption recorded)
             self.ctx.assume(v.t == self.to_u(tuple(outs)))
             self.ctx.notes.append(f"assumed: opaque value unpacks into {n} components")
+            h = getattr(self, "unpack_hook", None)
+            if h is not None:
+                h(self, v, outs)
             return outs
         if isinstance(v, Stacked) and isinstance(v.n, int):
             return self.unpack(self.iterate(v), n)
@@ -719,7 +728,7 @@ class OpsMixin:
             raise Unsupported(f"index {k!r} into tuple with opaque tail")
         if isinstance(o, Stacked):
             if isinstance(k, (int, SInt)):
-                return o.at(zint(k))
+                return o.at(self.jax_index(k, o.n))
             if isinstance(k, slice) and k == slice(None, None, None):
                 return o
             if isinstance(k, slice) and k.step is None and k.stop is None and isinstance(k.start, int) and k.start >= 0:
@@ -745,7 +754,8 @@ class OpsMixin:
                 self.ctx.assume(n >= 0)
                 return SInt(n, True)
             if o.cls in ("array", "batched") and isinstance(k, (int, SInt)):
-                return UVal(self.ctx.fn("axis0_index", U, z3.IntSort(), U)(o.t, zint(k)), o.cls)
+                n = self.ctx.fn("axis0_len", U, z3.IntSort())(o.t)
+                return UVal(self.ctx.fn("axis0_index", U, z3.IntSort(), U)(o.t, self.jax_index(k, n)), o.cls)
             if o.cls == "tuple" or o.cls is None:
                 if isinstance(k, int) and k >= 0:
                     f = self.ctx.fn("tuple_get", U, z3.IntSort(), U)
@@ -758,6 +768,19 @@ class OpsMixin:
         if isinstance(o, SReal) or isinstance(o, SInt) or isinstance(o, SBool):
             raise Unsupported("indexing a scalar")
         raise Unsupported(f"getitem on {type(o).__name__}")
+
+    def jax_index(self, k, n):
+        """v[k] along the leading axis (length n) with JAX semantics: a negative index counts from the end, an out-of-range
+        index is clamped into range (a concrete out-of-range index raises in JAX: not modelled, off-spec)"""
+        if isinstance(k, int):
+            if isinstance(n, int):
+                return z3.IntVal(max(0, min(n - 1, k + n if k < 0 else k)))
+            k = z3.IntVal(k)
+        else:
+            k = zint(k)
+        n = z3.IntVal(n) if isinstance(n, int) else n
+        j = z3.If(k < 0, k + n, k)
+        return z3.If(j < 0, z3.IntVal(0), z3.If(j >= n, n - 1, j))
 
     def setitem(self, o, k, v):
         if isinstance(o, SymMap):
